@@ -76,7 +76,9 @@ def drm_vectors(tier_: str, rng: random.Random) -> list[str]:
                 continue
             out.append(f'drm={s}{lc}')
     out += ['drm=playready,clearkey', 'drm=playready-cenc,clearkey-moov', 'drm=marlin,clearkey-moov', 'drm=playready-moov,marlin',
-            'drm=clearkey-cenc,playready-pro']
+            'drm=clearkey-cenc,playready-pro',
+            # lists that mix entries with and without a location list: an entry without one means every location
+            'drm=playready-pro,clearkey', 'drm=clearkey-cenc,playready', 'drm=playready-pro-cenc,marlin,clearkey', 'drm=clearkey,playready-pro']
     extra = ['', '&playready__version=1.0', '&playready__version=2.0', '&playready__version=4.0', '&playready__piff=0',
              '&playready__piff=1&playready__version=3.0']
     vecs = []
